@@ -88,4 +88,60 @@ def mkComp (f t : Option Int) (isdst : Bool) (name : Option (List Char)) (rr : O
 /-- `_tzicalvtz(tzid, comps)` stored under `tzid` -/
 def mkVtz (tzid : Option (List Char)) (comps : List ICal.Comp) : ICal.VTz := { tzid := tzid.getD [], comps := comps }
 
+/-! ### `self._vtz` as a dict (insertion-ordered association list keyed by `tzid`) -/
+
+/-- `next(iter(d))`: the first key; StopIteration on an empty dict -/
+def firstKey (d : List ICal.VTz) : R (List Char) :=
+  match d with
+  | v :: _ => .ok v.tzid
+  | [] => .error .StopIteration
+
+/-- `d.get(k)`: the value stored under `k`, `None` when absent (a `None` key is never stored) -/
+def dictGet (d : List ICal.VTz) (k : Option (List Char)) : Option ICal.VTz :=
+  match k with
+  | some t => d.find? (fun v => v.tzid == t)
+  | none => none
+
+/-- `list(d.keys())` -/
+def dictKeys (d : List ICal.VTz) : List (List Char) := d.map (·.tzid)
+
+/-- a timedelta result (µs): OverflowError outside ±999999999 days -/
+def tdRange (us : Int) : R Int :=
+  if us < -(TzStr.tdLimit * DtPy.M) ∨ us ≥ (TzStr.tdLimit + 86400) * DtPy.M then .error .OverflowError else .ok us
+
+/-- `a - b` / `a + b` on timedeltas -/
+def tdSub (a b : Int) : R Int := tdRange (a - b)
+def tdAdd (a b : Int) : R Int := tdRange (a + b)
+
+/-- the attributes `_tzicalvtzcomp.__init__` sets (timedeltas in microseconds) -/
+structure CompObj where
+  tzoffsetfrom : Int
+  tzoffsetto : Int
+  tzoffsetdiff : Int
+  isdst : Bool
+  tzname : Option (List Char)
+  rrule : Option RR
+  deriving DecidableEq, Repr, Inhabited
+
+/-- the attributes `_tzicalvtz.__init__` sets (`_cache_lock` is opaque) -/
+structure VtzObj where
+  tzid : Option (List Char)
+  comps : List ICal.Comp
+  cachedate : List (DtPy.Dt × Int)
+  cachecomp : List (Option ICal.ZComp)
+  deriving Repr, Inhabited
+
+/-- `dt.replace(fold=f)`: ValueError unless `f` is 0 or 1 -/
+def replaceFold (d : DtPy.Dt) (f : Int) : R DtPy.Dt :=
+  if f = 0 ∨ f = 1 then .ok { d with fold := decide (f ≠ 0) } else .error .ValueError
+
+/-- the `fileobj` argument of `tzical(...)`: a path (a `str`, opened with `open(path, 'r')`) or a stream (wrapped in `_nullcontext`);
+    `content` is what opening and `read()` produce — the text, or the exception kind they raise -/
+structure FileArg where
+  isPath : Bool
+  content : R (List Char)
+
+/-- `with <open(path) | _nullcontext(stream)> as fobj: fobj.read()` -/
+def FileArg.openRead (f : FileArg) : R (List Char) := f.content
+
 end RfcPy
